@@ -7,34 +7,8 @@ from fractions import Fraction
 import common, symcore, pysym
 from symcore import CTX, EX
 
-_VC = {}
-def free_vars(t):
-    """set of names of uninterpreted constants in t (cached by ast id)"""
-    k = t.get_id()
-    if k in _VC and _VC[k][0].eq(t): return _VC[k][1]
-    out = set(); seen = set(); st = [t]
-    while st:
-        e = st.pop(); i = e.get_id()
-        if i in seen: continue
-        seen.add(i)
-        if z3.is_const(e):
-            if e.decl().kind() == z3.Z3_OP_UNINTERPRETED: out.add(e.decl().name())
-        else: st.extend(e.children())
-    if len(_VC) > 20000: _VC.clear()
-    _VC[k] = (t, frozenset(out)); return _VC[k][1]     # the term is kept alive so that its id cannot be reused
-
-def cone(hyps, goal):
-    """cone of influence: the hypotheses connected (through shared free variables) to the goal.  Dropping the rest is
-    exact provided the rest is satisfiable (checked once per path by the vacuity witness)."""
-    vs = set(free_vars(goal)); rest = [(h, free_vars(h)) for h in hyps]; keep = []
-    changed = True
-    while changed:
-        changed = False; nxt = []
-        for h, fv in rest:
-            if not fv or (fv & vs): keep.append(h); vs |= fv; changed = True
-            else: nxt.append((h, fv))
-        rest = nxt
-    return keep
+free_vars = symcore.free_vars
+def cone(hyps, goal): return symcore.cone(hyps, [goal])
 
 def model_inputs(m, inputs):
     """inputs: {name: z3 term} -> {name: float}"""
@@ -61,12 +35,14 @@ def run_identities(ck, name, fn, replay=None, timeout_ms=20000, maxpaths=2000, s
         pre_ = list(res.get("pre", [])) + list(pre or [])
         base = list(hyp) + list(pc) + pre_
         # vacuity witness per path: the hypotheses must be satisfiable
-        r, _ = common.solve(base, timeout_ms)
+        r, _ = common.solve(base, min(timeout_ms, 5000))       # vacuity witness; 'unknown' within 5 s is neither a witness nor a failure
         if r == "unsat":
             ck.vacuity_fail("%s path %s" % (name, taken)); continue
         if r == "sat": ck.vacuity_ok("%s path %s" % (name, taken))
         for label, goal in res["goals"]:
             oname = "%s/%s@%s" % (name, label, "".join("T" if d is True else "F" if d is False else str(d) for d in taken))
+            if z3.is_true(z3.simplify(goal)):                  # syntactically identical terms: nothing to ask the solver
+                ck.ok(oname, "identical terms", stretch); ck.path(oname, n=0); continue
             r, m = ck.prove(oname, cone(base, goal), goal, timeout_ms, stretch=stretch)
             ck.path(oname, n=0)
             if r == "sat":
@@ -129,3 +105,23 @@ def par_paths(ck, run, on_path, depth=4, timeout_ms=20000, maxpaths=500000):
     for o, st in common.pmap(_pp_job, prefixes):
         outs += o; ck.merge_stats(st)
     return outs
+
+def _ppm_job(arg):
+    tag, prefix = arg
+    run, on_path, tmo, maxpaths = _PP["multi"][tag]
+    common.STATS.__init__()
+    out = []
+    for res, pc, hyp, taken, status in symcore.explore(run, maxpaths=maxpaths, prefixes=[prefix], timeout_ms=tmo):
+        out.append(on_path(res, pc, hyp, taken, status))
+    return tag, out, common.STATS.asdict()
+
+def par_paths_multi(ck, jobs, depth=4, timeout_ms=20000, maxpaths=500000):
+    """several path explorations in ONE worker pool. jobs: [(tag, run, on_path)] -> {tag: [summaries]}"""
+    _PP["multi"] = {tag: (run, on_path, timeout_ms, maxpaths) for tag, run, on_path in jobs}
+    work = []
+    for tag, run, on_path in jobs:
+        for p in symcore.split_prefixes(run, depth, timeout_ms): work.append((tag, p))
+    res = {tag: [] for tag, _, _ in jobs}
+    for tag, out, st in common.pmap(_ppm_job, work):
+        res[tag] += out; ck.merge_stats(st)
+    return res
